@@ -51,7 +51,12 @@ func vxLeaf(id string, shapes []int, small bool) Constant {
 	case 3:
 		return Float64(vxFloats[vxChoose(id+"_f", len(vxFloats))])
 	case 4:
-		return String(vxString(id+"_s", 1))
+		str := vxString(id+"_s", 1)
+		if !utf8.ValidString(str) {
+			// string constants are meant to hold UTF-8; the Go API accepts any bytes
+			vxTag("invalid-utf8-string")
+		}
+		return String(str)
 	case 5:
 		c, _ := Name([]string{"/a", "/b", "/a/b"}[vxChoose(id+"_nm", 3)])
 		return c
